@@ -41,7 +41,7 @@ Proof.
   cbn [next]. rewrite B, H1, H2, H3, C. cbn [orb].
   assert (TK : trim_space ((c :: k') ++ w0) = c :: k').
   { rewrite <- (app_nil_l ((c :: k') ++ w0)). apply (trim_space_pad_both [] (c :: k') w0); auto. constructor. }
-  rewrite TK, (trim_space_pad_both w1 l0 w2 P1 P2 Hl Ht), Hm. reflexivity.
+  rewrite TK, (trim_space_pad_both w1 l0 w2 P1 P2 Hl Ht). cbn [starts]. rewrite Hhash, Hm. reflexivity.
 Qed.
 
 (* ---- continuation line: marker (space or tab), content ("." for an empty line), trailing blanks ---- *)
